@@ -244,6 +244,31 @@ func devEnumerate(s *devSeed, thorough bool, ofHeader bool, yield func(dev strin
 			yield(fmt.Sprintf("append %x+header-length", t), c2)
 		}
 	}
+	// the frame extended to (and just below) the 64 KiB limit with filler bytes, header length
+	// adjusted: what a peer can send that still starts like this message. List loops that count in
+	// 16 bits, or that trust a length far larger than the element, show only here.
+	if ofHeader && n >= 8 {
+		totals := []int{65535, 65520}
+		fills := []byte{0x00, 0xff}
+		if thorough {
+			totals = []int{65535, 65528, 65521, 65520, 65519, 32768, 16384, 4096}
+			fills = []byte{0x00, 0xff, 0x01}
+		}
+		for _, total := range totals {
+			if total <= n {
+				continue
+			}
+			for _, f := range fills {
+				c := make([]byte, total)
+				copy(c, b)
+				for i := n; i < total; i++ {
+					c[i] = f
+				}
+				binary.BigEndian.PutUint16(c[2:], uint16(total))
+				yield(fmt.Sprintf("extend to %d with %#02x+header-length", total, f), c)
+			}
+		}
+	}
 	if !thorough {
 		return
 	}
